@@ -77,55 +77,61 @@ impl ZoneCache {
     }
 }
 
-fn readable(fs: &Fs, path: &str, f: &ConvFaults) -> Option<Arc<Vec<u8>>> {
+type Look<'a> = &'a mut dyn FnMut(&str) -> Node;
+
+fn readable(look: Look, path: &str, f: &ConvFaults) -> Option<Arc<Vec<u8>>> {
     if f.open_blocked(path).is_some() || f.read_blocked(path).is_some() {
         return None;
     }
-    match lookup(fs, path) {
+    match look(path) {
         Node::File(b) => Some(b),
         _ => None,
     }
 }
 
-fn openable(fs: &Fs, path: &str, f: &ConvFaults) -> bool {
-    f.open_blocked(path).is_none() && lookup(fs, path) != Node::Absent
+fn openable(look: Look, path: &str, f: &ConvFaults) -> bool {
+    f.open_blocked(path).is_none() && look(path) != Node::Absent
 }
 
 /// Resolve the file a TZ value names: absolute as is, otherwise the first zoneinfo directory
 /// in which it can be opened.
-fn resolve(fs: &Fs, name: &str, f: &ConvFaults) -> Option<String> {
+fn resolve(look: Look, name: &str, f: &ConvFaults) -> Option<String> {
     if name.starts_with('/') {
-        return if openable(fs, name, f) { Some(name.to_string()) } else { None };
+        return if openable(look, name, f) { Some(name.to_string()) } else { None };
     }
     for d in ZONEINFO_DIRS {
         // what Path::join does with an empty or relative component
         let p = if name.is_empty() { format!("{}/", d) } else { format!("{}/{}", d, name) };
-        if openable(fs, &p, f) {
+        if openable(look, &p, f) {
             return Some(p);
         }
     }
     None
 }
 
-/// The zone the statement of C18 designates in the given state (with the given transient faults).
-pub fn designate(
+/// The zone the statement of C18 designates, given the TZ value, the system zone name and a
+/// view of the file system (with the given transient faults).
+pub fn designate_view(
     tz: &Option<String>,
-    fs: &Fs,
     sysname: &Option<String>,
+    look: Look,
     f: &ConvFaults,
     zc: &mut ZoneCache,
 ) -> Desig {
-    let file_zone = |path: &str, zc: &mut ZoneCache| -> Option<Desig> {
-        let b = readable(fs, path, f)?;
+    fn file_zone(look: Look, path: &str, f: &ConvFaults, zc: &mut ZoneCache) -> Option<Desig> {
+        let b = readable(look, path, f)?;
         zc.file(&b)?;
         Some(Desig::File(b))
-    };
+    }
     let primary: Option<Desig> = match tz {
-        None => file_zone("/etc/localtime", zc),
+        None => file_zone(look, "/etc/localtime", f, zc),
         Some(s) if s.is_empty() => return Desig::Utc,
-        Some(s) if s.starts_with(':') => resolve(fs, &s[1..], f).and_then(|p| file_zone(&p, zc)),
-        Some(s) => match resolve(fs, s, f) {
-            Some(p) => file_zone(&p, zc),
+        Some(s) if s.starts_with(':') => match resolve(look, &s[1..], f) {
+            Some(p) => file_zone(look, &p, f, zc),
+            None => None,
+        },
+        Some(s) => match resolve(look, s, f) {
+            Some(p) => file_zone(look, &p, f, zc),
             None => {
                 let t = s.trim_matches(|c: char| c.is_ascii_whitespace());
                 if zc.rule(t).is_some() {
@@ -140,11 +146,90 @@ pub fn designate(
         return d;
     }
     if let Some(n) = sysname {
-        if let Some(d) = file_zone(&format!("/usr/share/zoneinfo/{}", n), zc) {
+        if let Some(d) = file_zone(look, &format!("/usr/share/zoneinfo/{}", n), f, zc) {
             return d;
         }
     }
     Desig::Utc
+}
+
+/// `designate_view` on one snapshot of the file system.
+pub fn designate(
+    tz: &Option<String>,
+    fs: &Fs,
+    sysname: &Option<String>,
+    f: &ConvFaults,
+    zc: &mut ZoneCache,
+) -> Desig {
+    designate_view(tz, sysname, &mut |p: &str| lookup(fs, p), f, zc)
+}
+
+/// Every zone a load can produce when files are replaced or deleted while it runs: the TZ value
+/// is one of `tzs`, the system name one of `sysnames`, and each path it touches shows any of the
+/// contents it had in one of the snapshots `fss` (one choice per path and load). Enumerated
+/// with an odometer over the choices actually consulted; capped.
+pub fn designate_nd(
+    tzs: &[Option<String>],
+    sysnames: &[Option<String>],
+    fss: &[Arc<Fs>],
+    f: &ConvFaults,
+    zc: &mut ZoneCache,
+) -> Vec<Desig> {
+    let mut out: Vec<Desig> = Vec::new();
+    let mut keys: BTreeSet<String> = BTreeSet::new();
+    let mut evals = 0;
+    for tz in tzs {
+        for sn in sysnames {
+            let mut odo: Vec<usize> = Vec::new();
+            loop {
+                // one evaluation under the current odometer
+                let mut arity: Vec<usize> = Vec::new();
+                let mut memo: Vec<(String, Node)> = Vec::new();
+                let d = {
+                    let mut look = |p: &str| -> Node {
+                        if let Some((_, n)) = memo.iter().find(|(q, _)| q == p) {
+                            return n.clone();
+                        }
+                        let mut opts: Vec<Node> = Vec::new();
+                        for fs in fss {
+                            let n = lookup(fs, p);
+                            if !opts.contains(&n) {
+                                opts.push(n);
+                            }
+                        }
+                        let k = arity.len();
+                        arity.push(opts.len());
+                        let c = odo.get(k).copied().unwrap_or(0).min(opts.len() - 1);
+                        let n = opts[c].clone();
+                        memo.push((p.to_string(), n.clone()));
+                        n
+                    };
+                    designate_view(tz, sn, &mut look, f, zc)
+                };
+                if keys.insert(d.key()) {
+                    out.push(d);
+                }
+                evals += 1;
+                // advance the odometer over the choices that were actually consulted
+                odo.resize(arity.len(), 0);
+                let mut i = arity.len();
+                let mut advanced = false;
+                while i > 0 {
+                    i -= 1;
+                    if odo[i] + 1 < arity[i] {
+                        odo[i] += 1;
+                        odo.truncate(i + 1);
+                        advanced = true;
+                        break;
+                    }
+                }
+                if !advanced || evals > 512 {
+                    break;
+                }
+            }
+        }
+    }
+    out
 }
 
 /// The answer zone `z` gives for a probe, in the shape of a conversion result.
@@ -204,6 +289,7 @@ pub struct JudgeStats {
     pub r1_discriminating: u64,
     pub r1_after_tz_change: u64,
     pub fault_relaxations_used: u64,
+    pub racing_file_updates: u64,
 }
 
 fn in_force(hist: &[Hist], seq: u64) -> usize {
@@ -273,6 +359,30 @@ pub fn judge(
         let mut v: BTreeSet<Option<String>> = BTreeSet::new();
         for h in &hist[v_lo..=hi] {
             v.insert(h.tz.clone());
+        }
+        // files replaced or deleted while the conversion ran: every zone a load racing with
+        // those updates can produce joins this worker's candidates
+        if c.fired_inject.iter().any(|(_, k)| *k == "replace_file" || *k == "delete_file" || *k == "set_system_zone") {
+            let mut tzs: Vec<Option<String>> = Vec::new();
+            let mut sns: Vec<Option<String>> = Vec::new();
+            let mut fss: Vec<Arc<Fs>> = Vec::new();
+            for h in &hist[inv_idx..=hi] {
+                if !tzs.contains(&h.tz) {
+                    tzs.push(h.tz.clone());
+                }
+                if !sns.contains(&h.sysname) {
+                    sns.push(h.sysname.clone());
+                }
+                if !fss.iter().any(|x| Arc::ptr_eq(x, &h.fs)) {
+                    fss.push(h.fs.clone());
+                }
+            }
+            for tz in &tzs {
+                for d in designate_nd(std::slice::from_ref(tz), &sns, &fss, &c.faults, &mut zc) {
+                    extra.entry(c.worker).or_default().push((tz.clone(), d));
+                }
+            }
+            stats.racing_file_updates += 1;
         }
         // faulted conversion: the perturbed world joins this worker's candidates
         if !c.fired_faults.is_empty() {
